@@ -30,10 +30,8 @@ def table_ob(prog):
         r = prog.find_method("TruncatedGaussianMeasure", "integration_dict")
         if r is None:
             raise model.AnchorError("TruncatedGaussianMeasure.integration_dict not found")
-        tab = None
-        for n in ast.walk(r[1]):
-            if isinstance(n, ast.Dict):
-                tab = {k.value: ast.unparse(v) for k, v in zip(n.keys, n.values)}
+        from .c03 import table_keys
+        tab = table_keys(prog, "TruncatedGaussianMeasure")
         bad = []
         for k in ("1", "x", "x**2", "x**k"):
             if k not in tab:
